@@ -80,7 +80,7 @@ def install(w):
         t = it.as_int(v, node)
         use("chr(i): ValueError unless 0 <= i <= 0x10FFFF, else the one-character string")
         it.guard(z3.And(0 <= t, t <= sym.MAXCP), ValueError, node, "SAFE-Value")
-        arr = z3.Array(it.namer.fresh("chr"), sym.I, sym.I)
+        arr = it.new_str_array("chr")
         it.assume(z3.Select(arr, 0) == t)
         return VStr(arr=arr, lo=z3.IntVal(0), hi=z3.IntVal(1))
     B["bi:chr"] = b_chr
@@ -314,6 +314,16 @@ def install(w):
             (v,) = args
             if isinstance(v, VBool):      # produced by comps for a generator argument
                 return v
+            if isinstance(v, VList) and it.st.lists[v.oid].items is None:
+                L = it.st.lists[v.oid]
+                if L.arrays is not None and L.spec == "bool":
+                    j = z3.Int(it.namer.fresh("j"))
+                    rng = z3.And(0 <= j, j < L.len)
+                    a0 = L.arrays[0]
+                    if is_all:
+                        return VBool(z3.ForAll([j], z3.Implies(rng, z3.Select(a0, j))))
+                    return VBool(z3.Exists([j], z3.And(rng, z3.Select(a0, j))))
+                return it.fresh_bool("allany")
             items = it.iter_concrete(v, node)
             ts = [it.truth(x) for x in items]
             return VBool(sand(*ts) if is_all else sor(*ts))
@@ -426,7 +436,7 @@ def install(w):
         clean = z3.And(z3.Implies(n >= 1, z3.Not(sur(c0))), z3.Implies(n >= 2, z3.Not(sur(c1))))
         it.note_safe("SAFE-Decode", _src(node), getattr(node, "lineno", 0))
         if it.decide(pair):
-            arr = z3.Array(it.namer.fresh("dec"), sym.I, sym.I)
+            arr = it.new_str_array("dec")
             it.assume(z3.Select(arr, 0) == 0x10000 + (c0 - 0xD800) * 1024 + (c1 - 0xDC00))
             return VStr(arr=arr, lo=z3.IntVal(0), hi=z3.IntVal(1))
         if it.decide(clean):
@@ -559,7 +569,7 @@ def install(w):
     B["py:cast"] = lambda it, f, args, kw, node: args[1]
 
     # defaults for extension hooks
-    for hook in ("len_ext", "minmax_ext", "isinstance_ext", "str_ext", "tuple_ext", "list_ext",
+    for hook in ("len_ext", "isinstance_ext", "str_ext", "tuple_ext", "list_ext",
                  "hasattr_ext", "int_ext", "float_ext"):
         if not hasattr(w, hook):
             setattr(w, hook, lambda *a, **k: None)
@@ -567,5 +577,4 @@ def install(w):
         w.getattr_dyn = lambda *a, **k: None
     if not hasattr(w, "join_pieces"):
         w.join_pieces = lambda *a, **k: None
-    if not hasattr(w, "list_append_sym"):
-        w.list_append_sym = lambda *a, **k: None
+
